@@ -47,6 +47,7 @@ pub fn model_space(tier: Tier) -> Vec<Model> {
             v.extend(gen::m8(0));
             v.extend(gen::m9(0));
             v.extend(gen::m10(0));
+            v.extend(gen::m11(0));
         }
         Tier::Thorough => {
             v.extend(gen::m1(1));
@@ -59,6 +60,7 @@ pub fn model_space(tier: Tier) -> Vec<Model> {
             v.extend(gen::m8(1));
             v.extend(gen::m9(1));
             v.extend(gen::m10(1));
+            v.extend(gen::m11(1));
         }
     }
     v
